@@ -133,12 +133,7 @@ variable (H : Bytes → Bytes)
 theorem getPath_eq_markRoot (t : WT) (keys : List (List Nib)) :
     getPath H t keys =
       (match (match t.root with
-          | .hashRef h _ =>
-            (match t.store.get h with
-              | none => Res.err Err.kvNotFound
-              | some data => match Cbor.decBase data with
-                | none => .err .other
-                | some p => deserializeNode p)
+          | .hashRef h _ => resolveHash t.hasDb t.store h
           | n => .ok n) with
         | .err e => (t, .err e)
         | .ok root =>
@@ -152,12 +147,7 @@ theorem getPath_eq_markRoot (t : WT) (keys : List (List Nib)) :
 /-- `GetPath(keys)` with the sequential strategy in every case -/
 def getPathSeq (t : WT) (keys : List (List Nib)) : WT × Res Bytes :=
   let r0 : Res WN := match t.root with
-    | .hashRef h _ =>
-      (match t.store.get h with
-        | none => .err .kvNotFound
-        | some data => match Cbor.decBase data with
-          | none => .err .other
-          | some p => deserializeNode p)
+    | .hashRef h _ => resolveHash t.hasDb t.store h
     | n => .ok n
   match r0 with
   | .err e => (t, .err e)
@@ -180,13 +170,8 @@ theorem getPath_strategy_irrelevant (t : WT) (keys : List (List Nib)) :
   rw [getPath_eq_markRoot]
   unfold getPathSeq
   generalize (match t.root with
-    | .hashRef h _ =>
-      (match t.store.get h with
-        | none => Res.err Err.kvNotFound
-        | some data => match Cbor.decBase data with
-          | none => .err .other
-          | some p => deserializeNode p)
-    | n => .ok n) = r0
+    | .hashRef h _ => resolveHash t.hasDb t.store h
+    | n => Res.ok n) = r0
   cases r0 with
   | err e => exact ⟨rfl, fun _ _ => rfl, fun _ => rfl⟩
   | ok root =>
